@@ -1091,10 +1091,18 @@ class FortranFile:
                     curr_line = (
                         " " * opt_cont_match.end(0) + curr_line[opt_cont_match.end(0) :]
                     )
-                while line_ind > 0:
-                    tmp_line = strip_strings(
-                        self.get_line(line_ind, pp_content), maintain_len=True
-                    )
+                while line_ind >= 0:
+                    tmp_line = self.get_line(line_ind, pp_content)
+                    # Preprocessor, empty and comment lines may stand between
+                    # the lines of a statement (the forward search skips them too)
+                    if (
+                        FRegex.PP_ANY.match(tmp_line)
+                        or tmp_line.rstrip() == ""
+                        or FRegex.FREE_COMMENT.match(tmp_line)
+                    ):
+                        line_ind -= 1
+                        continue
+                    tmp_line = strip_strings(tmp_line, maintain_len=True)
                     tmp_no_comm = tmp_line.split("!")[0]
                     cont_ind = tmp_no_comm.rfind("&")
                     opt_cont_match = FRegex.FREE_CONT.match(tmp_no_comm)
